@@ -90,6 +90,13 @@ CHECKS = {
                      "Conformance: all event sequences up to depth 4 (thorough 5) over a 16-event alphabet, ~10 400 scripts per run, client and listener, are run against "
                      "the real engines on a paused clock; every frame / call / quiescence point is judged by the observer's C12_* clauses.",
                 note="trusted: harness frame parser and lock-step quiescence detection; error *classes* compared, not exact variants"),
+    "C14": dict(technique="TLC model check of the stop-reason publication order and of pending waits (StopReason.tla: positive, refuted wrong order, reproduced open finding); TLC-enumerated cut point x failure kind x pending call scripts (FailGen.tla) executed lock-step on client and listener; traces validated by the TLA+ observer",
+                design="4/C14",
+                text="MC: with 'reason, then close' every waiter that observes the closure finds the reason and every channel-blocked operation returns; TLC refutes 'close, then reason' and "
+                     "shows that a wait on a one-shot the application keeps alive never returns (the open finding). Conformance: 382 scripts; C14_Completes (no call pending on a stopped "
+                     "scope after 1 h of virtual time), C14_DataPathErr, C14_Level (error names connection vs session), C14_PeerCondition, C14_ConnHandle, C14_TasksEnd (alive tasks = "
+                     "pending calls after all handles are dropped).",
+                note="cut points are frame / step boundaries plus one partial frame, not every byte offset; error scopes are recognised from the error's Debug rendering"),
     "C15": dict(technique="TLC-enumerated catalogue x state x side scripts (HostileGen.tla) executed lock-step under panic / spin / CPU / allocation monitors; traces validated by the TLA+ observer, whose legality classification of peer frames decides what must be answered by a shutdown",
                 design="4/C15",
                 text="35 hostile events (malformed frame headers and bodies, protocol violations) x 6 endpoint states x client / listener = 420 scripts, each followed by a probe. Clauses: "
